@@ -494,6 +494,12 @@ def gen_case(rng, idx, max_ops=8, max_samplers=4, bs_max=4, e_max=3, allow=("cal
         case["rl"] = {"samplers": gen_samplers(rng, ns, 0, bs_max, halton=bool(rng.below(2))),
                       "script": [rng.below(ns) for _ in range(rng.randint(1, 5))]}
         cfg["saving"] = False
+        if any(x == 0 for x in case["palette"]) and any(x < 0 for x in case["palette"]):
+            # A best loss of exactly 0 that a negative loss then improves on makes MABCalibrationEnv.get_reward divide by
+            # zero in the agent's thread, and calibrate() never returns: that input is C10's known finding
+            # `zero-reference-loss`; it says nothing about the properties of this family, whose model has no "calibrate
+            # does not return" outcome.  Negative losses without an exact zero, and exact zeros without negative losses, stay.
+            case["palette"] = [abs(x) for x in case["palette"]]
     else:
         case["samplers"] = gen_samplers(rng, ns, 0, bs_max)
     uid = 10
